@@ -41,7 +41,7 @@ def r_unordered(c):
     if len(sites) < 21:
         raise AnalysisError(f"only {len(sites)} iteration sites over unordered "
                             "values found (floor 21): type inference broken")
-    rv = Reviewed()
+    rv = Reviewed(m)
     for s in sites:
         where = m.loc(m.module_of(s.node), s.node)
         inst = s.stmt_text[:120]
@@ -68,7 +68,7 @@ def r_emitter_dict_order(c):
     mods = [x for x in EMITTERS if x in m.modules]
     sites = scan(m, mods, external_order_types={"DictOfNamedArrays"})
     n = 0
-    rv = Reviewed()
+    rv = Reviewed(m)
     for s in sites:
         if "caller-determined order" not in s.why:
             continue
